@@ -638,7 +638,11 @@ REC = TLS + 'record:'
 
 @register(REC + 'TlsRecord')
 def _tls_record():
-    return obj(REC + 'TlsRecord', fragment=blob(0, 65535, 'ba', sizes_with_ceiling(0, 65535)),
+    # around the plaintext limit 2^14 and the ciphertext allowances of TLS 1.3 (+256) and TLS 1.2 (+2048)
+    limits = st.sampled_from([2 ** 14 - 1, 2 ** 14, 2 ** 14 + 1, 2 ** 14 + 24, 2 ** 14 + 256, 2 ** 14 + 257, 2 ** 14 + 2048,
+                              2 ** 14 + 2049])
+    return obj(REC + 'TlsRecord', fragment=blob(0, 65535, 'ba', st.integers(0, 5).flatmap(
+        lambda roll: limits if roll == 5 else sizes_with_ceiling(0, 65535))),
                protocol_version=OPT(S(TLS + 'version:TlsProtocolVersion')),
                content_type=OPT(enum_(SUB + 'TlsContentType')))
 
